@@ -28,3 +28,76 @@ func VC10(tbl, op int) {
 	probe := vU16("probe")
 	vAssert("mem", bus1.Peek(probe) == bus2.Peek(probe))
 }
+
+// request forms: equal States + equal pending request, hidden fields differ.
+// kind: 0 NMI, 1 maskable; n = len(Data); a NOP is pinned at PC for refused requests
+func VC10Req(kind, im, n int) {
+	var s States
+	vHavoc(&s, "s")
+	if im >= 0 {
+		s.IM = im
+	}
+	bus1 := vNewBus("bus")
+	bus1.Poke(s.PC, 0)
+	bus2 := bus1.Fork("bus2")
+	var c1, c2 CPU
+	vHavocFields(&c1, "h1", vPublicCPU)
+	vHavocFields(&c2, "h2", vPublicCPU)
+	c1.States, c2.States = s, s
+	c1.Memory, c1.IO = bus1, bus1
+	c2.Memory, c2.IO = bus2, bus2
+	t := NMIType
+	if kind == 1 {
+		t = IMType
+	}
+	c1.Interrupt = &Interrupt{Type: t, Data: vBytes("d", n)}
+	c2.Interrupt = &Interrupt{Type: t, Data: vBytes("d", n)}
+	if im == 0 && n > 0 {
+		// mode 0 executes the supplied byte: pin it to RST 38h
+		c1.Interrupt.Data[0] = 0xff
+		c2.Interrupt.Data[0] = 0xff
+	}
+	c1.Step()
+	c2.Step()
+	vAssert("state", c1.States == c2.States)
+	vAssert("pending", (c1.Interrupt == nil) == (c2.Interrupt == nil))
+	vAssert("trace", vTraceSeqEq(bus1, bus2))
+	probe := vU16("probe")
+	vAssert("mem", bus1.Peek(probe) == bus2.Peek(probe))
+}
+
+// a CPU rebuilt from a copy of States and memory at the boundary after any
+// instruction continues exactly like the original.
+// mode: 0 = the next instruction is a NOP; 1 = a maskable request (mode 1) is
+// pending at that boundary; 2 = an NMI is pending
+func VC10Rebuild(tbl, op, mode int) {
+	var s States
+	vHavoc(&s, "s")
+	if mode == 1 {
+		s.IM = 1
+	}
+	bus1 := vNewBus("bus")
+	vPlace(bus1, s.PC, tbl, op)
+	orig := &CPU{States: s, Memory: bus1, IO: bus1}
+	orig.Step()
+	// the boundary: snapshot of States and memory
+	bus1.Poke(orig.PC, 0)
+	bus2 := bus1.Fork("bus2")
+	rebuilt := &CPU{States: orig.States, Memory: bus2, IO: bus2}
+	switch mode {
+	case 1:
+		orig.Interrupt = IM1Interrupt()
+		rebuilt.Interrupt = IM1Interrupt()
+	case 2:
+		orig.Interrupt = NMIInterrupt()
+		rebuilt.Interrupt = NMIInterrupt()
+	}
+	bus1.ResetTrace()
+	orig.Step()
+	rebuilt.Step()
+	vAssert("state", orig.States == rebuilt.States)
+	vAssert("pending", (orig.Interrupt == nil) == (rebuilt.Interrupt == nil))
+	vAssert("trace", vTraceSeqEq(bus1, bus2))
+	probe := vU16("probe")
+	vAssert("mem", bus1.Peek(probe) == bus2.Peek(probe))
+}
